@@ -157,6 +157,8 @@ class BlockLinearOperator(LinearOperator):
         # This preserves the block structure
         from linear_operator.operators.constant_mul_linear_operator import ConstantMulLinearOperator
 
+        if torch.is_tensor(other) and other.dim() > 0:
+            other = other.unsqueeze(-1)  # a batch of constants: the same constant for every block
         return self.__class__(ConstantMulLinearOperator(self.base_linear_op, other))
 
     def _transpose_nonbatch(self: Float[LinearOperator, "*batch M N"]) -> Float[LinearOperator, "*batch N M"]:
